@@ -6,6 +6,9 @@ TB = ("Coq 8.16.1 kernel incl. vm_compute (no native_compute); no axioms declare
       "extraction with ExtrOcamlBasic only + ocaml/driver.ml; C drivers harness/c/*.c; independent python oracles; "
       "hand-written models are tied to the C by differential execution on every run (see DESIGN.md section 6)")
 CHECKS = {
+ 'C03': dict(cat='proof', tech='Rocq proof (MDS of the 6x251 Cauchy and 3x251 power matrices by polynomial root counting in MathComp; Gauss-Jordan without pivoting never meets a zero pivot; combination enumerator and sorting networks) + unit correspondence of raid_rec/raid_data/raid_check/raid_scan in all decoder families against the known original stripe',
+             text='All 3.8e11 minors are settled by theorems, not enumeration; the decoder/validator models are executed against the real raid/*.c (int8, ssse3, avx2, dispatcher) on exhaustive small geometries and boundary-aimed large ones, the oracle being the original stripe.',
+             ref='4/C03'),
  'C02': dict(cat='proof', tech='Rocq proof (tables regenerated from tables.c = closed forms; GF(2^8) field laws; Horner/table generator models = matrix product for all nd<=251) + unit correspondence of all 31 exported variants',
              text='Theorems over the regenerated tables and the generator models for all geometries and contents; every exported raid_gen* variant (incl. SIMD) is executed against the extracted model and an independent GF reference on a complete per-disk byte basis.',
              ref='4/C02'),
